@@ -48,6 +48,10 @@ type replicator struct {
 
 	tasks map[cid.Cid]queuedState
 
+	// failed holds the hashes whose fetch failed or was aborted since the last
+	// load-end; guarded by muProcess
+	failed map[cid.Cid]struct{}
+
 	sem       *semaphore.Weighted
 	queue     *processQueue
 	muProcess sync.RWMutex
@@ -94,6 +98,7 @@ func NewReplicator(store storeInterface, concurrency uint, opts *Options) (Repli
 		concurrency: int64(concurrency),
 		store:       store,
 		tasks:       make(map[cid.Cid]queuedState),
+		failed:      make(map[cid.Cid]struct{}),
 		queue:       &processQueue{},
 		logger:      opts.Logger,
 		tracer:      opts.Tracer,
@@ -172,7 +177,8 @@ func (r *replicator) Load(ctx context.Context, entries []ipfslog.Entry) {
 	// process and wait the whole queue to complete
 	r.muProcess.Lock()
 	for i, entry := range entries {
-		if exist := r.AddEntryToQueue(entry); exist {
+		item, exist := r.addEntryToQueue(entry)
+		if exist {
 			continue
 		}
 
@@ -185,7 +191,7 @@ func (r *replicator) Load(ctx context.Context, entries []ipfslog.Entry) {
 
 		// add one process
 		go func(_ int) {
-			if err := r.processOne(ctx, &wg); err != nil {
+			if err := r.processOne(ctx, &wg, item); err != nil {
 				r.logger.Warn("unable to process entry", zap.Error(err))
 			}
 
@@ -198,21 +204,21 @@ func (r *replicator) Load(ctx context.Context, entries []ipfslog.Entry) {
 	wg.Wait()
 }
 
-// processOne wait for a process slot then process one element of the queue
-func (r *replicator) processOne(ctx context.Context, wg *sync.WaitGroup) error {
+// processOne wait for a process slot then process its element of the queue
+func (r *replicator) processOne(ctx context.Context, wg *sync.WaitGroup, e processItem) error {
 	// wait for a process slot
-	e, err := r.waitForProcessSlot(ctx)
-	if err != nil {
+	if err := r.waitForProcessSlot(ctx, e); err != nil {
 		return err
 	}
 
-	if err := r.processItems(ctx, wg, e); err != nil {
+	err := r.processItems(ctx, wg, e)
+	if err != nil {
 		r.logger.Warn("process item ended", zap.Error(err))
 	}
 
 	verifhook.Point("replicator.entry.beforeDone", Replicator(r), e.GetHash())
 	// mark this process has done
-	r.processEntryDone(e)
+	r.processEntryDone(e, err == nil)
 	return nil
 }
 
@@ -227,7 +233,8 @@ func (r *replicator) processItems(ctx context.Context, wg *sync.WaitGroup, items
 
 		r.muProcess.Lock()
 		for _, hash := range next {
-			if exist := r.AddHashToQueue(hash); exist {
+			item, exist := r.addHashToQueue(hash)
+			if exist {
 				continue
 			}
 
@@ -235,7 +242,7 @@ func (r *replicator) processItems(ctx context.Context, wg *sync.WaitGroup, items
 
 			// add process
 			go func() {
-				if err := r.processOne(ctx, wg); err != nil {
+				if err := r.processOne(ctx, wg, item); err != nil {
 					r.logger.Warn("unable to process entry", zap.Error(err))
 				}
 
@@ -284,6 +291,11 @@ func (r *replicator) processHash(ctx context.Context, item processItem) ([]cid.C
 		return nil, fmt.Errorf("unable to fetch log: %w", err)
 	}
 
+	// an aborted fetch comes back without error and without the entry
+	if _, ok := l.Get(hash); !ok {
+		return nil, fmt.Errorf("unable to fetch log: entry %s was not fetched", hash)
+	}
+
 	r.muBuffer.Lock()
 	r.buffer = append(r.buffer, l)
 	r.muBuffer.Unlock()
@@ -319,30 +331,49 @@ func (r *replicator) generateEmitter(bus event.Bus) error {
 	return nil
 }
 
-func (r *replicator) waitForProcessSlot(ctx context.Context) (e processItem, err error) {
+func (r *replicator) waitForProcessSlot(ctx context.Context, e processItem) error {
 	verifhook.Point("replicator.slot.before", Replicator(r))
 	if err := r.sem.Acquire(ctx, 1); err != nil {
-		return nil, fmt.Errorf("failed to acquire process slot: %w", err)
+		// the request was aborted while waiting: forget the item, so that it
+		// neither keeps the replicator busy for ever nor is skipped when it
+		// is announced again
+		r.muProcess.Lock()
+		r.queue.Remove(e)
+		delete(r.tasks, e.GetHash())
+		r.failed[e.GetHash()] = struct{}{}
+		if r.isIdle() {
+			r.idle()
+		}
+		r.muProcess.Unlock()
+
+		return fmt.Errorf("failed to acquire process slot: %w", err)
 	}
 	r.muProcess.Lock()
 
 	r.taskInProgress++
 
-	e = r.queue.Next()
+	r.queue.Remove(e)
 	r.tasks[e.GetHash()] = stateFetching
 
 	r.muProcess.Unlock()
 	verifhook.Point("replicator.slot.dequeued", Replicator(r), e.GetHash())
-	return
+	return nil
 }
 
-func (r *replicator) processEntryDone(item processItem) {
+func (r *replicator) processEntryDone(item processItem, fetched bool) {
 	r.muProcess.Lock()
 
 	r.taskInProgress--
 
-	// remove hash from queued list
-	r.tasks[item.GetHash()] = stateFetched
+	if fetched {
+		// remove hash from queued list
+		r.tasks[item.GetHash()] = stateFetched
+	} else {
+		// the fetch failed or was aborted: forget the hash so that a later
+		// request can fetch it
+		delete(r.tasks, item.GetHash())
+		r.failed[item.GetHash()] = struct{}{}
+	}
 
 	// if there no more task to proceed, trigger idle method
 	if r.isIdle() {
@@ -372,13 +403,19 @@ func (r *replicator) shouldExclude(hash cid.Cid) (exist bool) {
 
 // AddHashToQueue is not thread safe
 func (r *replicator) AddHashToQueue(hash cid.Cid) (exist bool) {
+	_, exist = r.addHashToQueue(hash)
+	return
+}
+
+// addHashToQueue is not thread safe
+func (r *replicator) addHashToQueue(hash cid.Cid) (item processItem, exist bool) {
 	_, inLog := r.store.OpLog().Get(hash)
 	_, queued := r.tasks[hash]
 	if exist = queued || inLog; exist {
 		return
 	}
 
-	item := newProcessHash(hash)
+	item = newProcessHash(hash)
 	r.queue.Add(item)
 	r.tasks[hash] = stateAdded
 	return
@@ -386,6 +423,12 @@ func (r *replicator) AddHashToQueue(hash cid.Cid) (exist bool) {
 
 // AddEntryToQueue is not thread safe
 func (r *replicator) AddEntryToQueue(entry iface.IPFSLogEntry) (exist bool) {
+	_, exist = r.addEntryToQueue(entry)
+	return
+}
+
+// addEntryToQueue is not thread safe
+func (r *replicator) addEntryToQueue(entry iface.IPFSLogEntry) (item processItem, exist bool) {
 	hash := entry.GetHash()
 	_, inLog := r.store.OpLog().Get(hash)
 	_, queued := r.tasks[hash]
@@ -393,7 +436,7 @@ func (r *replicator) AddEntryToQueue(entry iface.IPFSLogEntry) (exist bool) {
 		return
 	}
 
-	item := newProcessEntry(entry)
+	item = newProcessEntry(entry)
 	r.queue.Add(item)
 	r.tasks[hash] = stateAdded
 	return
@@ -414,9 +457,57 @@ func (r *replicator) isIdle() bool {
 	return true
 }
 
+// dropIncomplete removes from the fetched logs those whose ancestry could
+// not be fetched (a next link, directly or through another dropped log, is
+// among the failed hashes) and forgets them, so that nothing is merged above
+// a hole and a later request fetches them again. Not thread safe.
+func (r *replicator) dropIncomplete(logs []ipfslog.Log) []ipfslog.Log {
+	if len(r.failed) == 0 {
+		return logs
+	}
+
+	missing := map[string]struct{}{}
+	for c := range r.failed {
+		missing[c.String()] = struct{}{}
+	}
+
+	for changed := true; changed; {
+		changed = false
+		kept := make([]ipfslog.Log, 0, len(logs))
+		for _, l := range logs {
+			entries := l.GetEntries().Slice()
+			incomplete := false
+			for _, e := range entries {
+				for _, n := range e.GetNext() {
+					if _, ok := missing[n.String()]; ok {
+						incomplete = true
+					}
+				}
+			}
+
+			if !incomplete {
+				kept = append(kept, l)
+				continue
+			}
+
+			for _, e := range entries {
+				missing[e.GetHash().String()] = struct{}{}
+				delete(r.tasks, e.GetHash())
+			}
+			changed = true
+		}
+		logs = kept
+	}
+
+	return logs
+}
+
 // idle is not thread safe
 func (r *replicator) idle() {
 	r.muBuffer.Lock()
+
+	r.buffer = r.dropIncomplete(r.buffer)
+	r.failed = make(map[cid.Cid]struct{})
 
 	if len(r.buffer) > 0 {
 		verifhook.Point("replicator.loadend.emit", Replicator(r), r.buffer)
